@@ -1,0 +1,64 @@
+//go:build verif
+
+package profiledb
+
+// Contracts for govc (see /verif/DESIGN.md).  Comment-only file.
+
+//@ import agd github.com/AdguardTeam/AdGuardDNS/internal/agd
+//@ import netip net/netip
+
+// The six index maps are created once in New and only ever changed in place,
+// under mapsMu.  Profile and device objects are replaced as a whole on
+// synchronisation and never written afterwards.
+//@ immutable Default.profiles, Default.devices, Default.dedicatedIPToDeviceID, Default.deviceIDToProfileID, Default.humanIDToDeviceID, Default.linkedIPToDeviceID, Default.mapsMu, Default.logger, Default.metrics
+
+//@ lock Default self.mapsMu
+//@   protects mapof(self.profiles), mapof(self.devices), mapof(self.dedicatedIPToDeviceID), mapof(self.deviceIDToProfileID), mapof(self.humanIDToDeviceID), mapof(self.linkedIPToDeviceID)
+//@   invariant forall id agd.ProfileID :: has(self.profiles, id) ==> self.profiles[id] != nil
+
+//@ pred DB(db *Default) = db.mapsMu != nil && db.profiles != nil && db.devices != nil && db.dedicatedIPToDeviceID != nil &&
+//@      db.deviceIDToProfileID != nil && db.humanIDToDeviceID != nil && db.linkedIPToDeviceID != nil && db.logger != nil && db.metrics != nil
+
+// The lookups, as functions of the six maps (index hit followed by every
+// re-check the code performs).  devOK: the device id leads to a profile that
+// lists it and to a device object.
+//@ pred inIDs(ids []agd.DeviceID, id agd.DeviceID) = exists i int :: 0 <= i && i < len(ids) && ids[i] == id
+//@ pred devOK(db *Default, id agd.DeviceID) = has(db.deviceIDToProfileID, id) && has(db.profiles, db.deviceIDToProfileID[id]) &&
+//@      db.profiles[db.deviceIDToProfileID[id]] != nil && inIDs(db.profiles[db.deviceIDToProfileID[id]].DeviceIDs, id) &&
+//@      has(db.devices, id) && db.devices[id] != nil
+//@ pred foundLinked(db *Default, ip netip.Addr) = has(db.linkedIPToDeviceID, ip) && devOK(db, db.linkedIPToDeviceID[ip]) &&
+//@      db.devices[db.linkedIPToDeviceID[ip]].LinkedIP == ip
+//@ pred inAddrs(ips []netip.Addr, ip netip.Addr) = exists i int :: 0 <= i && i < len(ips) && ips[i] == ip
+//@ pred foundDedicated(db *Default, ip netip.Addr) = has(db.dedicatedIPToDeviceID, ip) && devOK(db, db.dedicatedIPToDeviceID[ip]) &&
+//@      inAddrs(db.devices[db.dedicatedIPToDeviceID[ip]].DedicatedIPs, ip)
+//@ pred foundHuman(db *Default, k humanIDKey) = has(db.profiles, k.profile) && has(db.humanIDToDeviceID, k) && devOK(db, db.humanIDToDeviceID[k]) &&
+//@      db.devices[db.humanIDToDeviceID[k]].HumanIDLower == k.lower
+
+// C14, background clean-ups: whatever the state of the database when a
+// clean-up finally runs, it may only remove an index entry that no lookup can
+// observe - every lookup answers after it exactly as before it.
+
+//@ func (*Default).removeLinkedIP
+//@   property C14
+//@   requires DB(db)
+//@   modifies mapof(db.linkedIPToDeviceID)
+//@   ensures cleanup-invisible: forall k netip.Addr :: foundLinked(db, k) == locked(foundLinked(db, k))
+//@   ensures forall k netip.Addr :: k != ip ==> has(db.linkedIPToDeviceID, k) == locked(has(db.linkedIPToDeviceID, k)) && db.linkedIPToDeviceID[k] == locked(db.linkedIPToDeviceID[k])
+
+//@ func (*Default).removeDedicatedIP
+//@   property C14
+//@   requires DB(db)
+//@   modifies mapof(db.dedicatedIPToDeviceID)
+//@   ensures cleanup-invisible: forall k netip.Addr :: foundDedicated(db, k) == locked(foundDedicated(db, k))
+
+//@ func (*Default).removeHumanID
+//@   property C14
+//@   requires DB(db)
+//@   modifies mapof(db.humanIDToDeviceID)
+//@   ensures cleanup-invisible: forall q humanIDKey :: foundHuman(db, q) == locked(foundHuman(db, q))
+
+//@ func (*Default).removeDevice
+//@   property C14
+//@   requires DB(db)
+//@   modifies mapof(db.deviceIDToProfileID)
+//@   ensures cleanup-invisible: forall j agd.DeviceID :: devOK(db, j) == locked(devOK(db, j))
